@@ -27,7 +27,7 @@ RULE = ("exhaustive block: for every image size lines<=Nmax (pixels 3) and pixel
         "column-indexer class, rpc class, type) signatures")
 ASSUMPTIONS = ["the in-memory twin holds the sample matrix decoded independently from the file bytes (C01 validates full loads)",
                "out-of-range keys are only required to fail in both (same exception class)"]
-REQUIRED_OBS = ["selections", "agree_with_twin"]
+REQUIRED_OBS = ["selections", "agree_with_twin", "decoys_loaded_first", "pow2_span_images"]
 CASE_TIMEOUT = 600
 
 NMAX = {"quick": 3, "thorough": 5}
@@ -205,9 +205,27 @@ def run_case(i, tier, seed):
         lines, pixels = rng.choice([(rng.randrange(1, 12), rng.randrange(1, 8)), (rng.randrange(12, 300), rng.randrange(1, 40))])
         rpc = rng.choice(harness.rpc_candidates(lines, rng))
         sels = [selections.random_selection(rng, lines, pixels) for _ in range(RAND_SEL[tier])]
+        if i % 9 == 4:
+            # round sizes: one full group of rpc lines spans exactly 2**k bytes
+            g = harness.pow2_geometry(typ, rng.randrange(12, 21), rng)
+            if g:
+                lines, pixels, rpc = g
+                sels = [selections.random_selection(rng, lines, min(pixels, 64)) for _ in range(60)]
+                obs["pow2_span_images"] = 1
     files, names, root, url = build(seed, i, typ, lines, pixels)
     sample = None
+    decoy = None
     try:
+        if i >= len(exh) and i % 4 == 1:
+            # another product with the same file names and geometry under the SAME root string on another filesystem is
+            # opened and fully loaded first: whatever is remembered per path must not leak into this product's selections
+            dfiles, dnames, _, _ = build(seed, 5_000_000 + i, typ, lines, pixels)
+            synth.uninstall(dfiles, _, "memory")
+            durl = synth.install(dfiles, root, "lvfs")
+            decoy = (dfiles, root)
+            dt = harness.open_tree(durl, use_cache=False, records_per_chunk=rpc)
+            dt["imagery/HH/data"].values
+            obs["decoys_loaded_first"] = 1
         tree = harness.open_tree(url, use_cache=False, records_per_chunk=rpc)
         im = refdec.image(files[names["imgs"][0]])
         lazy, twin, control = make_triple(tree, "HH", expected_values(im))
@@ -234,6 +252,8 @@ def run_case(i, tier, seed):
                                        "detail": {"lazy": _describe(a), "twin": _describe(b), "control": _describe(c)}})
     finally:
         synth.uninstall(files, root, "memory")
+        if decoy:
+            synth.uninstall(decoy[0], decoy[1], "lvfs")
     for f in contracts.drain():
         violations.append({"what": f"contract {f['contract']} failed", "detail": f["detail"]})
     obs["contract_evals"] = sum(contracts.EVALS.values())
